@@ -101,6 +101,12 @@ func c10Exec(op string) string {
 			key, value, haveKV = k, v, true
 		}
 	}
+	if sv, ok := nv.(string); ok {
+		// the string form "key<sep>value" stands for {key: value} with the value taken verbatim
+		if parts := strings.Split(sv, sep); len(parts) == 2 && parts[0] != "" {
+			key, value, haveKV = parts[0], parts[1], true
+		}
+	}
 	cnt, err := mxj.Map(m).UpdateValuesForPath(nv, path, subs...)
 	if err != nil {
 		note := ""
@@ -311,7 +317,7 @@ func c10Gen(r *Rng, n int) []string {
 			case 1:
 				nv = enc(map[string]interface{}{key: "NEW"})
 			case 2:
-				s := key + sep + r.Pick([]string{"NEW", "true", "1.5", "x y"})
+				s := key + sep + r.Pick([]string{"NEW", "true", "1.5", "x y", " pad ", "tab\t", " ", "\u00a0nb"})
 				if r.P(40) {
 					s += sep + r.Pick([]string{"bool", "num", "float", "int", "boolean", "numeric", "weird"})
 				}
